@@ -439,7 +439,16 @@ fn files_for_invocation(invocation: &ToolInvocation) -> Result<Option<Vec<PathBu
         "write" => {
             let args: WriteArgs = serde_json::from_value(invocation.args.clone())
                 .map_err(|err| format!("checkpoint args invalid: {err}"))?;
-            Ok(Some(vec![PathBuf::from(args.path)]))
+            let path = PathBuf::from(args.path);
+            // Same guard as the tool itself: nothing is checkpointed for a path it will refuse.
+            if path.is_absolute()
+                || path
+                    .components()
+                    .any(|c| matches!(c, std::path::Component::ParentDir))
+            {
+                return Err("checkpoint path must be relative to the workspace root".to_string());
+            }
+            Ok(Some(vec![path]))
         }
         "apply_patch" => {
             let args: ApplyPatchArgs = serde_json::from_value(invocation.args.clone())
